@@ -419,6 +419,11 @@ FIXED += [
         _c("Stmt", "Node", abstract=True, style="decorator"),
         _c("Lit", "Expr", [("v", I01)]), _c("Add", "Expr", [("l", E), ("r", E)]),
         _c("Block", "Stmt", [("body", ("sym", "Stmt"))])]},
+    # float refinements whose bounds are written as INT literals (the value must still be a float)
+    {"id": "floatint", "start": "F", "classes": [
+        _c("F", "", abstract=True),
+        _c("FI", "F", [("x", ("ann", ("base", "float"), ("FloatRangeInt", 0, 5))), ("y", ("ann", ("base", "float"), ("FloatRangeInt", -2, 2)))]),
+        _c("FR", "F", [("z", ("ann", ("base", "float"), ("FloatRangeInt", 1, 1))), ("r", ("sym", "F"))])]},
     # weighted productions whose weights do not add up to a power of two
     {"id": "weighted", "start": "Expr", "classes": [
         _c("Expr", "", abstract=True), _c("Lit", "Expr", [("v", I01)], weight=3),
